@@ -17,7 +17,7 @@ from vmon.libutil import load_definition, monitored
 LEVEL = "exploration"
 SHARDS = {"quick": 16, "thorough": 16}
 KINDS = ("integer", "float", "enumerated", "boolean", "string", "binary", "abstime", "reltime")
-MUST = ["datasets", "cells.compared", "mode.raw", "mode.derived", "files.multi", "apids.multi", "polymorphic.rejected"] + [f"cells.{k}" for k in KINDS]
+MUST = ["datasets", "cells.compared", "mode.raw", "mode.derived", "files.multi", "apids.multi", "polymorphic.rejected", "manyrows.datasets", "files.form.generator", "files.form.iter", "files.form.tuple"] + [f"cells.{k}" for k in KINDS]
 RULE = ("case = (flat definition: abstract root + one concrete child container per APID, each with a fixed list of "
         "parameters of random kinds/encodings; packet files: 1-3 files, 1-4 APIDs interleaved, values at encoding extremes "
         "- 0, max, sign bit, NaN/inf, empty and NUL-terminated strings/bytes; mode raw/derived). create_dataset's result is "
@@ -151,9 +151,15 @@ def run(ctx):
                 ctx.count("evaluations")
                 ctx.count("datasets")
                 ctx.count("mode.raw" if raw_mode else "mode.derived")
-                arg = files if (nfiles > 1 or rng.random() < 0.5) else files[0]
+                # packet_files may be a path, or any iterable of paths: list, tuple, generator, iterator, map, Path objects
+                form = rng.choice(["list", "tuple", "generator", "iter", "map", "pathlist"]) if (nfiles > 1 or rng.random() < 0.5) else "single"
+                ctx.count(f"files.form.{form}")
+                import pathlib
+                arg = {"single": lambda: files[0], "list": lambda: list(files), "tuple": lambda: tuple(files),
+                       "generator": lambda: (f_ for f_ in files), "iter": lambda: iter(files), "map": lambda: map(str, files),
+                       "pathlist": lambda: [pathlib.Path(f_) for f_ in files]}[form]()
                 st = monitored(xarr.create_dataset, arg, ld.value, raw_mode)
-                wit = {"doc": i, "mode": "raw" if raw_mode else "derived", "files": nfiles, "apids": sorted(rows)}
+                wit = {"doc": i, "mode": "raw" if raw_mode else "derived", "files": nfiles, "apids": sorted(rows), "packet_files_form": form}
                 if st.exc is not None:
                     ctx.violation(f"exception/{type(st.exc).__name__}/{'raw' if raw_mode else 'derived'}/{blame(doc, layout, rows, raw_mode, st.exc)}",
                                   f"create_dataset raised {st.exc!r} for a flat-per-APID stream", dict(wit, exception=repr(st.exc)[:400]))
@@ -206,6 +212,8 @@ def run(ctx):
                 ctx.sample({"doc": i, "apids": apids, "files": nfiles, "layout": {str(a): [(n, info.feat[n]) for n, _ in l] for a, l in layout.items()}})
         polymorphic(ctx, scratch)
         directed_nuls(ctx, scratch)
+        if ctx.mine(3):
+            many_rows(ctx, scratch)
     finally:
         import shutil
         shutil.rmtree(scratch, ignore_errors=True)
@@ -284,6 +292,44 @@ def directed_nuls(ctx, scratch):
                 else:
                     ctx.violation(f"cell/{'raw' if raw_mode else 'derived'}/{info.feat[name]}/{value_class(exp)}/dtype={col.dtype.kind}",
                                   f"variable {name} row {ri}: cell {got!r} != {exp!r}", {"variable": name, "row": ri, "cell": got, "expected": exp})
+
+
+def many_rows(ctx, scratch):
+    """one APID with tens of thousands of packets (beyond 2**15 rows) plus a short second APID: every row, in order"""
+    from space_packet_parser import packets as P
+    from space_packet_parser import xarr
+    from vmon.props.c05 import header_types
+    ts, ps = header_types("PKT_APID")
+    ts += [ir.PType("CNT_Type", "integer", ir.IntEnc(32, "unsigned")), ir.PType("E_Type", "enumerated", ir.IntEnc(8, "unsigned"), None, tuple((v, f"LABEL_{v}") for v in range(256)))]
+    ps += [ir.Param("CNT", "CNT_Type"), ir.Param("E", "E_Type")]
+    root = ir.Container("CCSDSPacket", tuple(("p", p.name) for p in ps))
+    defn = load_definition(render.render_doc(ir.Doc(tuple(ts), tuple(ps), (root,))))
+    n = ctx.size(33_500, 70_000)
+    path1, path2 = os.path.join(scratch, "many1.bin"), os.path.join(scratch, "many2.bin")
+    with open(path1, "wb") as f1, open(path2, "wb") as f2:
+        for i in range(n):
+            (f1 if i < n // 2 else f2).write(bytes(P.create_ccsds_packet((i * 7919 % 2 ** 32).to_bytes(4, "big") + bytes([i % 256]), apid=10 if i % 1000 else 11,
+                                                                      sequence_count=i % 16384)))
+    for raw_mode in (False, True):
+        st = monitored(xarr.create_dataset, [path1, path2], defn, raw_mode)
+        ctx.count("evaluations")
+        ctx.count("manyrows.datasets")
+        if st.exc is not None:
+            ctx.violation(f"exception/{type(st.exc).__name__}/many-rows", repr(st.exc), {"n": n})
+            continue
+        for apid in (10, 11):
+            idx = [i for i in range(n) if (10 if i % 1000 else 11) == apid]
+            ds = st.value.get(apid)
+            if ds is None or len(ds["CNT"].values) != len(idx):
+                ctx.violation("rows/count/many-rows", f"APID {apid}: {None if ds is None else len(ds['CNT'].values)} rows for {len(idx)} packets", {"n": n, "apid": apid})
+                continue
+            cnt = ds["CNT"].values
+            e = ds["E"].values
+            bad = next((j for j, i in enumerate(idx) if int(cnt[j]) != i * 7919 % 2 ** 32 or (int(e[j]) if raw_mode else str(e[j])) != (i % 256 if raw_mode else f"LABEL_{i % 256}")), None)
+            ctx.count("cells.compared", 2 * len(idx))
+            if bad is not None:
+                ctx.violation("cell/many-rows", f"APID {apid}: row {bad} does not hold packet {idx[bad]}'s values", {"n": n, "apid": apid, "row": bad})
+        ctx.sig("many-rows", raw_mode, n > 32768)
 
 
 def polymorphic(ctx, scratch):
